@@ -189,9 +189,13 @@ def drain (cfg : MapCfg) : Nat → MapState → MapState
 
 /-! ## reduction trees -/
 
+def clog2Aux (n : Nat) : Nat → Nat → Nat
+  | 0, d => d
+  | fuel+1, d => if n ≤ 2 ^ d then d else clog2Aux n fuel (d + 1)
+
 /-- least `d` with `n ≤ 2^d`: the exact value of `(int)ceil(log(n) / log(2.0))` (tied to the C
     floating-point expression by the harness) -/
-def clog2 (n : Nat) : Nat := if n ≤ 1 then 0 else Nat.log2 (n - 1) + 1
+def clog2 (n : Nat) : Nat := clog2Aux n n 0
 
 /-! ### reduce.jdf
         reduce(l, p)   l = 1 .. depth+1     p = 0 .. (MT / (1<<l))
@@ -328,10 +332,9 @@ def RTree.sub : RTree → List Bool → Option RTree
 
 abbrev Store (α : Type) := List (List Bool × α)
 
-def Store.get {α} (s : Store α) (p : List Bool) : Option α :=
-  match s.find? (fun e => e.1 == p) with
-  | some e => some e.2
-  | none => none
+def Store.get {α} : Store α → List Bool → Option α
+  | [], _ => none
+  | (q, x) :: r, p => if q = p then some x else Store.get r p
 
 /-- fire the node at path `p` if it exists, has not fired and its inputs are available -/
 def fire {α} (f : α → α → α) (v : Nat → α) (root : RTree) (s : Store α) (p : List Bool) : Store α :=
